@@ -976,6 +976,18 @@ FUNCS = [
                     "( FileLocation::Remote { host: src_host, path: src_path, }, FileLocation::Remote { host: dst_host, path: dst_path, }, ) => "
                     'Err(format!( "Remote-to-remote sync not yet supported: {src_host}:{src_path} -> {dst_host}:{dst_path}" ) .into()), }',
                     "return (match (src_remote, dst_remote) with\n  | (false, false) => some 0\n  | (false, true) => some 1\n  | (true, false) => some 2\n  | (true, true) => none)")]),
+    # ---- single_sync.rs: the single-file local run (`copia sync LOCAL LOCAL`): `sync_files` with the given block size, nothing else
+    dict(group="delta", file="src/bin/copia/single_sync.rs", name="run_sync_local_to_local", sig=None,
+         lean="def singleLocalGen {R : Type} (sync_files : Nat → Option R) (block_size : Nat) : Bool := Id.run do\n"
+              "  -- world: the result of `AsyncCopiaSync::with_block_size(block_size).sync_files(source, dest)` (translated on its own: `syncFilesGen`): none = Err; true = Ok(())",
+         calls={}, paths={},
+         verbatim=[("let sync = AsyncCopiaSync::with_block_size(block_size);", "let sync := sync_files block_size"),
+                   ('if verbose { eprintln!("Syncing {} -> {}", source.display(), dest.display()); eprintln!("Block size: {block_size}"); }', ""),
+                   ("let result = sync.sync_files(source, dest).await?;", "let some _result := sync | return false"),
+                   ('if verbose { eprintln!("Source size: {} bytes", result.source_size); eprintln!("Basis size: {} bytes", result.basis_size); '
+                    'eprintln!("Bytes matched: {} bytes", result.bytes_matched); eprintln!("Bytes literal: {} bytes", result.bytes_literal); '
+                    'eprintln!( "Compression ratio: {:.1}%", result.compression_ratio() * 100.0 ); eprintln!( "Bandwidth savings: {:.1}%", result.bandwidth_savings() * 100.0 ); }', ""),
+                   ("Ok(())", "return true")]),
     # ---- single_sync.rs: the single-file push (`copia sync LOCAL host:FILE`): the push primitive of `sync -r`, without a time stamp
     dict(group="delta", file="src/bin/copia/single_sync.rs", name="run_sync_local_to_remote", sig=None,
          lean="def singlePushGen (transfer : Option Nat) : Bool := Id.run do\n"
